@@ -231,4 +231,26 @@ theorem remote_fin_leaves_no_unsent_segment (v : VSock) (hdr : Header) (hst : v.
   simp only [hst, hne1, hne2, hfin, hseq, if_false, if_true, ne_eq, not_true_eq_false, Gate.vsock]
   exact ⟨h6, h1, h2, rfl⟩
 
+/-- **No FIN behind an outstanding MTU probe (D27).** While the newest queued segment is a probe the peer has not
+acknowledged, `unsent_data_exists()` answers true - and `poll` schedules the endpoint's own FIN only when it answers
+false. A lost probe is popped and its bytes are segmented again under its own and the FOLLOWING numbers, so a FIN
+numbered right behind it would collide with the second piece (before the repair the FIN was then re-sent in that
+piece's place and the piece was never transmitted). -/
+theorem no_fin_behind_outstanding_probe (v : VSock) (c : Ctx) (h : v.probeOutstanding = true) :
+    v.unsentDataExists c = .ok true := by
+  unfold unsentDataExists
+  split
+  · rfl
+  · simp [h, pure, Except.pure]
+
+/-- Non-vacuity: a queue whose newest segment is an unacknowledged probe. -/
+def probeSock : VSock :=
+  { state := .established, opts := { nagle := true }, socketCreated := 0, connIdSend := 1,
+    lastRemoteTimestamp := 0, lastRemoteWindow := 100000, seqNr := 6, lastSentSeqNr := 5,
+    lastConsumedRemoteSeqNr := 0, lastSentAckNr := 0, lastSentWindow := 0,
+    rx := Rx.build 1000 528, tx := TxRing.new 1000,
+    segs := { (Segments.new 5) with segs := [{ payloadSize := 741, offsetAbs := 0, isMtuProbe := true }] },
+    ss := { minSs := 528, maxSs := 952, cooldownRemaining := 1, cooldownMax := 3 } }
+example : probeSock.probeOutstanding = true := by decide
+
 end UtpVerif.Props.C17
